@@ -21,6 +21,21 @@ FIRST_MISSED = {
     "C16-c": "missed at first; cache access modelled as `touch` under the lock, cold-build-vs-format soak added",
     "C17-c": "missed at first; format is now run on every tree literal of the repository's own tests",
     "C17-b": "neutralised by repair 6cdb174 (demo passes with the patch on the repaired tree)",
+    "C01-d": "MISSED at first (the change shows only in parsers built after parse_sqlserver's); operator-table probe: other entry points in C01, after creation orders in C15, neutral statements in C18",
+    "C02-d": "missed at first (TOP counts were 1 / 5 / 10, never PERCENT / WITH TIES); all TOP forms incl. 0 added",
+    "C03-d": "missed by C03 at first (caught by C04); stacked prefix operators / parenthesised numbers added",
+    "C05-d": "missed at first; wrapped-tail statements added — they exposed the genuine defect repaired by 3ed8b7a; patch rebased onto it",
+    "C08-d": "first only as a broken correspondence; empty blocks added to the script pool",
+    "C13-d": "missed at first (12 statement kinds); one statement of every kind incl. routines and blocks added",
+    "C15-d": "missed at first (needs new syntax `!<`); grammar-graph signature by creation order + new terminals tried in templates",
+    "C15-c": "first only as a broken obligation; probe with a call inside a frame offset added",
+    "C16-d": "first only as a broken obligation; DELIMITER scripts with non-default options added to the thread alphabet",
+    "C18-d": "missed at first; a quoted plain name at 33 places must read like the bare name",
+    "C18-c": "first only as a broken obligation; bare names over the whole identifier alphabet added to the neutral statements",
+    "C19-d": "missed at first; CHARACTER SET / COLLATE / UNSIGNED next to column options added",
+    "C07-d": "first only as a broken obligation; reserved word glued to @ / $ / accented letter / digit added to the names",
+    "C11-d": "first only as a broken correspondence; NULL inside window frame offsets added to the pool (exposed the C12 frame-offset finding)",
+    "C10-b": "rebased onto 3ed8b7a (same mutation as C05-d)",
 }
 rows = []
 for d in sorted(glob.glob(os.path.join(V, "seeded", "*"))):
